@@ -34,6 +34,7 @@ type Contract struct {
 	Ensures      []*Clause
 	Lets         []*Clause // Label = name
 	Loops        map[int]*LoopSpec
+	Ranges       map[int]*LoopSpec // sync.Map.Range call sites, by ordinal
 	Modifies     []string
 	Inline       bool
 	Trusted      bool // contract assumed, body not verified (externals)
@@ -119,7 +120,7 @@ func parseContracts(path string) ([]*Contract, []*SpecDef, error) {
 		}
 		switch word {
 		case "func", "iface", "callout", "type":
-			cur = &Contract{Name: rest, Loops: map[int]*LoopSpec{}, Line: ln, File: path, Flags: map[string]string{}}
+			cur = &Contract{Name: rest, Loops: map[int]*LoopSpec{}, Ranges: map[int]*LoopSpec{}, Line: ln, File: path, Flags: map[string]string{}}
 			if word == "type" {
 				cur.Name = "type " + rest
 			}
@@ -213,16 +214,20 @@ func parseContracts(path string) ([]*Contract, []*SpecDef, error) {
 		case "modifies":
 			cur.Modifies = append(cur.Modifies, strings.Fields(rest)...)
 			last = nil
-		case "loop":
+		case "loop", "range":
 			nstr, r2 := splitWord(rest)
 			n, err := strconv.Atoi(nstr)
 			if err != nil {
 				return nil, nil, fmt.Errorf("%s:%d: loop ordinal: %v", path, ln, err)
 			}
-			ls := cur.Loops[n]
+			tbl := cur.Loops
+			if word == "range" {
+				tbl = cur.Ranges
+			}
+			ls := tbl[n]
 			if ls == nil {
 				ls = &LoopSpec{Ordinal: n}
-				cur.Loops[n] = ls
+				tbl[n] = ls
 			}
 			// optional "(description)"
 			r2 = strings.TrimSpace(r2)
@@ -290,6 +295,9 @@ func parseContracts(path string) ([]*Contract, []*SpecDef, error) {
 			}
 			c.Loops[n] = nl
 		}
+		for n, l := range src.Ranges {
+			c.Ranges[n] = &LoopSpec{Ordinal: n, Invariants: cp(l.Invariants)}
+		}
 		for _, m := range src.Modifies {
 			c.Modifies = append(c.Modifies, sub(m))
 		}
@@ -313,6 +321,9 @@ func parseContracts(path string) ([]*Contract, []*SpecDef, error) {
 	for _, c := range out {
 		all := append(append(append([]*Clause{}, c.Requires...), c.Ensures...), c.Lets...)
 		for _, l := range c.Loops {
+			all = append(all, l.Invariants...)
+		}
+		for _, l := range c.Ranges {
 			all = append(all, l.Invariants...)
 		}
 		for _, ls := range c.LockInvs {
